@@ -38,6 +38,14 @@ CLAIMED["C05"] = dict(
     technique="Coq proof (boolean case analysis over the generated table; unfolding of decision prefixes) + exhaustive-grid correspondence",
 )
 
+CLAIMED["C06"] = dict(
+    category="proof",
+    text="Theorems in coq/Props/Properties_C06.v about a Gallina model of jwk_clean/jose_jwk_pub over the type and operation tables regenerated from the running registry: after a successful export no key holds any private member of its type (and the generated lists are proved to cover RFC 7518 section 6: oct k; RSA d p q dp dq qi oth; EC d), every other member is unchanged, key_ops loses exactly the private operations (all eight for symmetric keys), the export is idempotent, the RFC 7638 thumbprint input of asymmetric keys is unchanged, arrays and JWKSets of any length are exported element-wise (induction on the list). Tie: extracted model vs jose_jwk_pub on all subsets of present private members x extras x key_ops variants x kty spellings x nestings, with an independent Python oracle. Produced JWS/JWE objects are scanned for key material by the C03/C04 runs.",
+    design_ref="DESIGN.md section 3 C06",
+    note="Coq kernel; no axioms; objects without duplicate member names; the 'produced objects' half is a structural/runtime check, confidentiality of ciphertexts is not claimed.",
+    technique="Coq proof (association-list lemmas, vm_compute over the generated tables, induction on key lists) + extracted-model correspondence",
+)
+
 NOT_YET = {}
 
 def main():
